@@ -73,14 +73,18 @@ class CCodeMapper(SimplifyingSortingStringifyMapper):
 
     def __init__(self, reverse=True,
             cse_prefix="_cse", complex_constant_base_type="double",
-            cse_name_list=None):
+            cse_name_list=None, cse_to_name=None):
         if cse_name_list is None:
             cse_name_list = []
+        if cse_to_name is None:
+            cse_to_name = {}
         super().__init__(reverse)
         self.cse_prefix = cse_prefix
 
-        self.cse_to_name = {cse: name for name, cse in cse_name_list}
-        self.cse_names = {cse for name, cse in cse_name_list}
+        # maps wrapped subexpressions to the names assigned to them
+        self.cse_to_name = dict(cse_to_name)
+        # names already taken (cse_name_list holds (name, code) pairs)
+        self.cse_names = {name for name, cse in cse_name_list}
         self.cse_name_list = cse_name_list[:]
 
         self.complex_constant_base_type = complex_constant_base_type
@@ -90,7 +94,7 @@ class CCodeMapper(SimplifyingSortingStringifyMapper):
             cse_name_list = self.cse_name_list
         return CCodeMapper(self.reverse,
                 self.cse_prefix, self.complex_constant_base_type,
-                cse_name_list)
+                cse_name_list, self.cse_to_name)
 
     def copy_with_mapped_cses(self, cses_and_values):
         return self.copy(self.cse_name_list + cses_and_values)
@@ -209,7 +213,8 @@ class CCodeMapper(SimplifyingSortingStringifyMapper):
             self.cse_to_name[expr.child] = cse_name
             self.cse_names.add(cse_name)
 
-            assert len(self.cse_names) == len(self.cse_to_name)
+            # (names passed in by copy_with_mapped_cses have no expression)
+            assert len(self.cse_names) >= len(self.cse_to_name)
 
         return cse_name
 
